@@ -523,8 +523,8 @@ def _b1(ctx: Context) -> None:
              f"{ctx.fkey(f)}:accounting:range", f"encode_pdu: offsets are range({show(start)}, {show(stop, 60)}, ...) over {show(base2, 60)}", ctx.loc(f, h))
     ck.check(R, strip_sites(step) == strip_sites(w2), "the offset advances by exactly the slice width (same term): no byte skipped or repeated",
              f"{ctx.fkey(f)}:accounting:advance",
-             f"encode_pdu: continuation fragments take {show(w2, 50)} bytes but the offset advances by {show(step, 50)} - "
-             + ("bytes between fragments are repeated" if True else ""), ctx.loc(f, h))
+             f"encode_pdu: continuation fragments take {show(w2, 50)} bytes but the offset advances by {show(step, 50)} - bytes are repeated or skipped between fragments",
+             ctx.loc(f, h))
     # control-flow shape: first fragment exactly once before the loop, one continuation per offset, header-only PDU exclusive
     p = cfg.find_path(cfg.entry.id, h.id, avoid_nodes=[n1.id])
     ck.check(R, p is None, "the first fragment is emitted on every path into the continuation loop",
@@ -662,6 +662,11 @@ def _b1_overhead(ctx: Context, wf, wcfg, wn, fs_term) -> None:
         odd = [a for a in _alts(v) if not (is_frag(a) or is_enc(a))]
         if odd:
             ck.unknown(R, f"_write_pdu: written value {show(odd[0], 120)} is neither a fragment nor an encrypted fragment", ctx.loc(wf, n))
+            continue
+        if not ck.check(R, any(is_enc(a) for a in _alts(v)), "_write_pdu: what is written is the result of key.encrypt(fragment) whenever that call was passed",
+                        f"{ctx.fkey(wf)}:encrypt-result-unused",
+                        f"_write_pdu: the value handed to write_gatt_char is {show(v, 100)} - never the ciphertext, although the size was reduced for the tag and the "
+                        "accessory expects sealed fragments", ctx.loc(wf, n)):
             continue
         ctx.must_pass(R, wcfg, n, "key.encrypt(fragment) [or no key]", gate, start=heads[0].id,
                       desc="_write_pdu: with a key every fragment reaches the write only through its own encrypt call")
@@ -1427,13 +1432,17 @@ def _t1_batch_decoder(ctx: Context, item):
         else:
             ck.unknown(R, f"decode_all_pdus: {what} is stepped by `{sn.text()}`, not by `+=`", ctx.loc(f, sn))
             return None
+        init = T.of(cfg, cfg.nodes[inits[0][0]], inits[0][1].value)
+        if init[0] not in ("param", "const"):
+            ck.unknown(R, f"decode_all_pdus: {what} starts at {show(init, 60)}, neither a parameter nor a constant", ctx.loc(f, dn))
+            return None
         p = _cycle_avoiding(cfg, dn, avoid_nodes=[si])
         ck.check(R, p is None, f"decode_all_pdus: {what} is stepped exactly once between two items", f"{ctx.fkey(f)}:{what.split()[0]}:once-per-item",
                  f"decode_all_pdus: the next item can be decoded without stepping the {what}", ctx.loc(f, sn), cfg.render_path(p) if p else None)
         q = cfg.find_path(cfg.entry.id, si, avoid_nodes=[dn.id])
         ck.check(R, q is None, f"decode_all_pdus: {what} is stepped after the item was decoded", f"{ctx.fkey(f)}:{what.split()[0]}:after-decode",
                  f"decode_all_pdus: the {what} is stepped before the first item is decoded", ctx.loc(f, sn), cfg.render_path(q) if q else None)
-        return e0.id, T.of(cfg, cfg.nodes[inits[0][0]], inits[0][1].value), sn, st
+        return e0.id, init, sn, st
 
     # expected tid
     sparam = None
@@ -1573,3 +1582,277 @@ def _t1_call_sites(ctx: Context, start_e, sparam) -> None:
                      f"{g.name}: the encoder numbers the requests from {start_e} but the responses are expected from {_ci(st)}: every item of every batch becomes TID_MISMATCH",
                      ctx.loc(g, n))
     ck.require_min(R, "call sites of decode_all_pdus", n_sites, 1)
+
+
+# ====================================================================== C17.T2
+def _t2(ctx: Context) -> None:
+    ck = ctx.ck
+    T = ctx.terms
+    R = "C17.T2"
+    STATUS_CLS = f"{COAP_PDU}.PDUStatus"
+    POST_ALL = f"{COAP_CONN}.EncryptionContext.post_all"
+    n_funcs = n_stores = n_status = n_sites = 0
+    for q in EXIT_FUNCS:
+        f = ctx.func(q)
+        cfg = ctx.cfg(q)
+        owner = f.cls
+        # ---- call sites tell which parameter holds the requested ids and which the results
+        ids_p = res_p = None
+        callers = []
+        for g in (owner.methods.values() if owner is not None else []):
+            if g.qualname == q or isinstance(g.node, ast.Lambda):
+                continue
+            gcfg = ctx.cfg(g.qualname)
+            for n, c in _calls_to(ctx, gcfg, q):
+                callers.append((g, gcfg, n, c))
+        if not callers:
+            ck.unknown(R, f"{f.name}: no call site found", f.loc())
+            continue
+        site_ok = True
+        for g, gcfg, n, c in callers:
+            am = _argmap(c, f, drop_first=True)
+            if am is None:
+                ck.unknown(R, f"{g.name}: arguments of {f.name} cannot be mapped", ctx.loc(g, n))
+                site_ok = False
+                continue
+            terms = {p: T.of(gcfg, n, a) for p, a in am.items()}
+            rp = [p for p, t in terms.items() if t[0] == "await" and t[1][0] == "call" and POST_ALL in ctx.callee_names(g, _await_call(gcfg, T, n, am[p]) or c)]
+            rp = rp or [p for p, t in terms.items() if t[0] == "await" and t[1][0] == "call" and t[1][1][0] == "attr" and t[1][1][2] == "post_all"]
+            ip = [p for p in terms if p not in rp]
+            if len(rp) != 1 or len(ip) != 1:
+                ck.unknown(R, f"{g.name}: cannot tell the ids argument from the results argument of {f.name}: {[show(t, 50) for t in terms.values()]}", ctx.loc(g, n))
+                site_ok = False
+                continue
+            if (ids_p, res_p) not in ((None, None), (ip[0], rp[0])):
+                ck.unknown(R, f"{f.name}: call sites disagree on the roles of the parameters", ctx.loc(g, n))
+                site_ok = False
+                continue
+            ids_p, res_p = ip[0], rp[0]
+            # the iid list that was sent is derived, in order, from the same ids
+            n_sites += 1
+            post = terms[res_p][1]
+            idt = strip_sites(terms[ids_p])
+            srcs = [idt] + ([strip_sites(idt[2][0])] if _is_call_to(idt, "list") and len(idt[2]) == 1 else [])
+            iids = strip_sites(post[2][1]) if len(post[2]) >= 2 else ("unknown", "")
+            ok = (iids[0] == "comp" and iids[1] == "ListComp" and len(iids[3]) == 1 and not iids[3][0][2] and iids[3][0][1] in srcs
+                  and _is_call_to(iids[2], "int") and iids[2][2] == (("sub", iids[3][0][0], ("const", 1)),))
+            if iids[0] != "comp":
+                ck.unknown(R, f"{g.name}: the iid list given to post_all is {show(iids, 80)}, not a list comprehension", ctx.loc(g, n))
+            else:
+                ck.check(R, ok, f"{g.name}: request i is int(ids[i][1]) - the iid list is derived in order from the ids given to {f.name}",
+                         f"{ctx.fkey(g)}:iids-from-ids", f"{g.name}: iids are {show(iids, 100)} but results are attributed to {show(idt, 60)}", ctx.loc(g, n))
+        if not site_ok or ids_p is None:
+            continue
+        n_funcs += 1
+        IDS, RES = ("param", ids_p), ("param", res_p)
+        # ---- the loop over enumerate(results)
+        heads = []
+        for n in cfg.nodes:
+            if n.kind != "for":
+                continue
+            el = _loop_elem(T, cfg, n)
+            it = el[1][0] if el[0] == "tuple" and len(el[1]) == 2 else None
+            src = it[1][1] if it is not None and it[0] == "sub" and it[1][0] == "iter" else None
+            if src is not None and _is_call_to(src, "enumerate") and src[2] and src[2][0] == RES:
+                heads.append((n, src, el))
+        if len(heads) != 1:
+            ck.unknown(R, f"{f.name}: expected one `for i, result in enumerate(<results parameter>)`, found {len(heads)}", f.loc())
+            continue
+        h, en, el = heads[0]
+        start = 0 if len(en[2]) == 1 and not en[3] else (_ci(en[2][1]) if len(en[2]) == 2 and not en[3] else (_ci(en[3][0][1]) if len(en[2]) == 1 and len(en[3]) == 1 and en[3][0][0] == "start" else None))
+        ck.check(R, start == 0, f"{f.name}: results are enumerated from 0", f"{ctx.fkey(f)}:enumerate-start",
+                 f"{f.name}: results are enumerated from {start if start is not None else show(en, 60)}: result i is attributed to ids[i + {start}]", ctx.loc(f, h))
+        IDX, RESULT = strip_sites(el[1][0]), strip_sites(el[1][1])
+        KEYBASE = ("sub", IDS, IDX)
+        # ---- stores
+        st_edges_T = []
+        for n in cfg.nodes:
+            if n.kind == "test":
+                t = strip_sites(T.of(cfg, n, n.exprs[0]))
+                if _is_call_to(t, "isinstance") and len(t[2]) == 2 and t[2][0] == RESULT and t[2][1] == ("glob", STATUS_CLS):
+                    st_edges_T += ctx.edges(cfg, n, "T")
+        stores = []
+        for n in cfg.nodes:
+            a = n.ast
+            if n.kind == "stmt" and isinstance(a, ast.Assign) and len(a.targets) == 1 and isinstance(a.targets[0], ast.Subscript) and h.ast in _loops_of(n):
+                tg = a.targets[0]
+                if isinstance(tg.slice, ast.Slice) or not isinstance(tg.value, ast.Name):
+                    continue
+                stores.append((n, tg, strip_sites(T.of(cfg, n, tg.slice)), strip_sites(T.of(cfg, n, a.value))))
+        if not stores and not st_edges_T:
+            ck.unknown(R, f"{f.name}: neither a `results[key] = ...` store nor an isinstance(result, PDUStatus) test in the loop", ctx.loc(f, h))
+            continue
+        err_nodes = []
+        for n, tg, key, val in stores:
+            n_stores += 1
+            good = key == KEYBASE or key == ("tuple", (("sub", KEYBASE, ("const", 0)), ("sub", KEYBASE, ("const", 1))))
+            other = [s for s in subterms(key) if s[0] == "sub" and s[1] == IDS and s[2] != IDX]
+            if not good and not other:
+                ck.unknown(R, f"{f.name}: store key {show(key, 100)} is not ids[i] / (ids[i][0], ids[i][1])", ctx.loc(f, n))
+                continue
+            ck.check(R, good, f"{f.name}: result i is stored under {ids_p}[i] (i = enumerate index of that result)",
+                     f"{ctx.fkey(f)}:store-key:{norm_stmt(_u(tg.value))}",
+                     f"{f.name}: result i is stored under {show(key, 100)} - not the id the i-th request was made for (results attributed to the wrong characteristic"
+                     + (", IndexError on the last item)" if other else ")"), ctx.loc(f, n))
+            # error mapping
+            on_err = bool(st_edges_T) and cfg.find_path(h.id, n.id, avoid_edges=st_edges_T) is None
+            if on_err:
+                err_nodes.append(n.id)
+                if val[0] != "dict":
+                    ck.unknown(R, f"{f.name}: error entry {show(val, 80)} is not a dict literal", ctx.loc(f, n))
+                    continue
+                sv = [v for k, v in val[1] if k == ("const", "status")]
+                if len(sv) != 1:
+                    ck.unknown(R, f"{f.name}: error entry {show(val, 80)} has no single 'status' item", ctx.loc(f, n))
+                    continue
+                n_status += 1
+                want = ("unop", "USub", ("attr", RESULT, "value"))
+                ck.check(R, sv[0] == want, f"{f.name}: a PDUStatus result becomes status = -result.value (of that same result)",
+                         f"{ctx.fkey(f)}:status-mapping",
+                         f"{f.name}: a failed item is reported with status {show(sv[0], 60)} instead of -result.value (HAP status codes are negative; a positive/foreign value "
+                         "reads as another outcome)", ctx.loc(f, n))
+            else:
+                # success entry of a read: the value must come from this result
+                vs = [v for k, v in val[1] if k == ("const", "value")] if val[0] == "dict" else []
+                for v in vs:
+                    srcs_ok = all(contains(a, lambda s: s == RESULT) or contains(a, lambda s: s == KEYBASE) for a in _alts(v))
+                    ck.check(R, srcs_ok, f"{f.name}: the value stored for ids[i] is decoded from result i", f"{ctx.fkey(f)}:value-source",
+                             f"{f.name}: the stored value {show(v, 100)} does not come from the i-th result", ctx.loc(f, n))
+        # an error item is always recorded
+        if not st_edges_T:
+            ck.unknown(R, f"{f.name}: no isinstance(result, PDUStatus) test in the loop", ctx.loc(f, h))
+            continue
+        p = None
+        for e in st_edges_T:
+            if e[1] in err_nodes:
+                continue
+            p = p or cfg.find_path(e[1], h.id, avoid_nodes=err_nodes)
+        ck.check(R, p is None, f"{f.name}: every PDUStatus result is recorded as a per-item error before the next item", f"{ctx.fkey(f)}:error-recorded",
+                 f"{f.name}: a failed item can pass without an entry - the error is hidden", ctx.loc(f, h), cfg.render_path(p) if p else None)
+    ck.require_min(R, "CoAP *_exit functions analysed", n_funcs, 4)
+    ck.require_min(R, "CoAP *_exit: results[key] stores", n_stores, 5)
+    ck.require_min(R, "CoAP *_exit: status mappings", n_status, 4)
+    ck.require_min(R, "CoAP *_exit: call sites", n_sites, 4)
+
+
+def _await_call(cfg, T, node, expr):
+    """The Call AST awaited by ``expr`` (following a unique temporary), or None."""
+    _n, e = _resolve_ast(T, cfg, node, expr)
+    if isinstance(e, ast.Await) and isinstance(e.value, ast.Call):
+        return e.value
+    return None
+
+
+# ====================================================================== thorough tier
+def run_thorough(ctx: Context) -> None:
+    """Whole-package sweep: every struct unpack whose buffer is a slice must read exactly calcsize(format) bytes."""
+    ck = ctx.ck
+    T = ctx.terms
+    R = "C17.G1"
+    if not ck.rule(R, "BLE decoders reject a wrong tid / missing continuation flag; unpack widths equal the slices"):
+        return
+    n_sliced = n_whole = n_open = 0
+    for g in ctx.prog.package_functions():
+        if isinstance(g.node, ast.Lambda) or g.module.name in EXCLUDED_MODULES:
+            continue
+        if not any(isinstance(x, ast.Call) and (("unpack" in (x.func.attr if isinstance(x.func, ast.Attribute) else "").lower())
+                                               or ("unpack" in (x.func.id if isinstance(x.func, ast.Name) else "").lower()))
+                   for x in ast.walk(g.node)):
+            continue
+        cfg = ctx.cfg(g.qualname)
+        for s in _unpack_sites(ctx, cfg):
+            sl = _slice(s["buf"])
+            size = _size(s["fmt"])
+            if sl is None or s["off"] is not None or size is None:
+                n_whole += 1
+                continue
+            base, lo, hi = sl
+            w = _minus(hi, lo) if hi is not None else None
+            if w is None or _ci(w) is None:
+                n_open += 1
+                ck.note(f"sweep: {g.qualname}: `{_u(s['call'])[:60]}` slice width {show(w, 40) if w else 'open'} not constant - not decided")
+                continue
+            n_sliced += 1
+            ck.check(R, _ci(w) == size, f"sweep: {g.qualname.split('.', 1)[1]}: unpack {s['fmt']} ({size} bytes) reads a slice of {_ci(w)} bytes",
+                     f"{ctx.fkey(g)}:sweep-unpack-width:{s['fmt']}",
+                     f"{g.qualname}: `{_u(s['call'])[:70]}` unpacks {size} bytes from a slice of {_ci(w)} bytes - struct.error on every message", ctx.loc(g, s["node"]))
+    ck.require_min(R, "sweep: unpack sites on constant-width slices", n_sliced, 7)
+    ck.extra_coverage["sweep_unpack_sites"] = {"sliced_checked": n_sliced, "whole_field_not_applicable": n_whole, "non_constant_width_not_decided": n_open}
+
+
+MANIFEST = {
+    "technique": "def-use term comparison of slice bounds / struct formats / loop steps (symbolic linear bound) + CFG must-pass-through gates with exact outcomes",
+    "level_text": "Static, all paths and all fragment sizes / body lengths / batch shapes (symbolic, not sampled): decides that each BLE fragment is "
+    "calcsize(packed headers) + a slice of width size - calcsize(...) (so never larger than the negotiated size), that the continuation header has bit 7 "
+    "and the request's tid, that first slice / remainder / range step / continuation slice use the same terms (every body byte emitted once), that the "
+    "16-byte AEAD overhead is subtracted exactly when a key is present and every written fragment passed its own encrypt; that both BLE decoders "
+    "reject a wrong tid / missing 0x80 flag before any normal exit with unpack widths equal to their slices; that _read_pdu decrypts before decoding, "
+    "reads exactly while len(data) < expected_length, uses decode_pdu for the first and decode_pdu_continuation for later fragments with the tid of the "
+    "request; that the CoAP batch encoder numbers items from the starting tid the decoder expects, header size 5 agrees in unpack / body slice / "
+    "offset step, every return carries the unpacked length, the three reject edges map to TID_MISMATCH / status / BAD_CONTROL; and that *_exit stores "
+    "result i under ids[i] with status = -value. These are necessary structural conditions of the property.",
+    "level_note": "NOT decided: equality of reassembled and sent opcode/iid/body as values over all inputs and cut points (DESIGN section 8) - only the byte "
+    "accounting, bounds, gates and constant agreement from which it follows given Python slice semantics; the size of an encrypted fragment relies on the "
+    "library adding exactly a 16-byte tag (constant checked against the frozen spec value, library trusted); behaviour for fragment sizes below the header "
+    "size (negative slice bounds) is outside the property's quantifier; opcode/iid attribution on the BLE request side is only checked by header field "
+    "order, not against caller intent. Layout tables in sa/spec/pdu.py are written from the HAP specification, not from the code.",
+}
+
+TWIN_FILES = [
+    "aiohomekit/pdu.py",
+    "aiohomekit/controller/ble/client.py",
+    "aiohomekit/controller/ble/bleak.py",
+    "aiohomekit/controller/coap/pdu.py",
+    "aiohomekit/controller/coap/connection.py",
+]
+_P, _C, _B, _CP, _CC = TWIN_FILES
+VARIANTS = [
+    # ---- Appendix A
+    {"name": "first fragment subtracts 5 instead of 7", "file": _P, "old": "next_size = fragment_size - 7", "new": "next_size = fragment_size - 5", "expect": "C17.B1"},
+    {"name": "continuation control byte 0x40", "file": _P, "old": "STRUCT_BB_PACK(0x80, tid)", "new": "STRUCT_BB_PACK(0x40, tid)", "expect": "C17.B1"},
+    {"name": "tid test deleted from decode_pdu", "file": _P,
+     "old": "    if tid != expected_tid:\n        raise ValueError(f\"Expected transaction {expected_tid} but got transaction {tid}\")\n\n    if status != PDUStatus.SUCCESS:",
+     "new": "    if status != PDUStatus.SUCCESS:", "expect": "C17.G1"},
+    {"name": "offset += 4 + body_len", "file": _CP, "old": "offset += 5 + body_len", "new": "offset += 4 + body_len", "expect": "C17.T1"},
+    {"name": "error item returns length 0", "file": _CP, "old": "return (body_len, PDUStatus.TID_MISMATCH)", "new": "return (0, PDUStatus.TID_MISMATCH)", "expect": "C17.T1"},
+    {"name": "encoder enumerates from 1", "file": _CP, "old": "for (idx, iid_data) in enumerate(iids_data)", "new": "for (idx, iid_data) in enumerate(iids_data, 1)", "expect": "C17.T1"},
+    # ---- own
+    {"name": "reassembly loop uses <=", "file": _C, "old": "while len(data) < expected_length:", "new": "while len(data) <= expected_length:", "expect": "C17.G2"},
+    {"name": "continuation decoded with decode_pdu", "file": _C, "old": "data += decode_pdu_continuation(tid, next)", "new": "data += decode_pdu(tid, next)[2]", "expect": "C17.G2"},
+    {"name": "continuation decrypted after decoding", "file": _C,
+     "old": "        if decryption_key:\n            try:\n                next = decryption_key.decrypt(bytes(next))\n            except DecryptionError:\n                raise EncryptionError(\"Decryption failed\")\n        if debug:\n            logger.debug(\"Read fragment: %s\", next)\n\n        data += decode_pdu_continuation(tid, next)",
+     "new": "        body = decode_pdu_continuation(tid, next)\n        if decryption_key:\n            try:\n                body = decryption_key.decrypt(bytes(body))\n            except DecryptionError:\n                raise EncryptionError(\"Decryption failed\")\n        data += body",
+     "expect": "C17.G2"},
+    {"name": "first fragment decoded without decrypting", "file": _C, "old": "            data = decryption_key.decrypt(bytes(data))\n", "new": "            decryption_key.decrypt(bytes(data))\n", "expect": "C17.G2"},
+    {"name": "continuation checked against another tid", "file": _C, "old": "decode_pdu_continuation(tid, next)", "new": "decode_pdu_continuation(tid + 1, next)", "expect": "C17.G2"},
+    {"name": "response checked against a fresh tid", "file": _C, "old": "return await _read_pdu(client, decryption_key, handle, tid)",
+     "new": "return await _read_pdu(client, decryption_key, handle, random.randrange(1, 254))", "expect": "C17.G2"},
+    {"name": "key overhead constant 8", "file": _C, "old": "KEY_OVERHEAD_SIZE = 16", "new": "KEY_OVERHEAD_SIZE = 8", "expect": "C17.B1"},
+    {"name": "overhead subtracted when the key is absent", "file": _C, "old": "KEY_OVERHEAD_SIZE if encryption_key else 0", "new": "0 if encryption_key else KEY_OVERHEAD_SIZE", "expect": "C17.B1"},
+    {"name": "overhead no longer subtracted", "file": _B, "old": "        fragment_size -= additional_overhead_size", "new": "        pass", "expect": "C17.B1"},
+    {"name": "fragments written unencrypted", "file": _C, "old": "            data = encryption_key.encrypt(bytes(data))\n", "new": "            encryption_key.encrypt(bytes(data))\n", "expect": "C17.B1"},
+    {"name": "offset advances by slice width - 1", "file": _P, "old": "range(0, len(data), next_size)", "new": "range(0, len(data), next_size - 1)", "expect": "C17.B1"},
+    {"name": "remainder skips one byte", "file": _P, "old": "    data = data[next_size:]", "new": "    data = data[next_size + 1 :]", "expect": "C17.B1"},
+    {"name": "continuation subtracts 1 instead of 2", "file": _P, "old": "next_size = fragment_size - 2", "new": "next_size = fragment_size - 1", "expect": "C17.B1"},
+    {"name": "header unpacked from 4 bytes", "file": _P, "old": "STRUCT_BBB_UNPACK(data[:3])", "new": "STRUCT_BBB_UNPACK(data[:4])", "expect": "C17.G1"},
+    {"name": "continuation flag tested with 0x40", "file": _P, "old": "if not (control & 0x80):", "new": "if not (control & 0x40):", "expect": "C17.G1"},
+    {"name": "continuation flag test inverted", "file": _P, "old": "if not (control & 0x80):", "new": "if control & 0x80:", "expect": "C17.G1"},
+    {"name": "continuation tid test only logs", "file": _P,
+     "old": "    if tid != expected_tid:\n        raise ValueError(f\"Expected transaction {expected_tid} but got transaction {tid}\")\n\n    return data[2:]",
+     "new": "    if tid != expected_tid:\n        logger.warning(f\"Expected transaction {expected_tid} but got transaction {tid}\")\n\n    return data[2:]", "expect": "C17.G1"},
+    {"name": "continuation body from offset 3", "file": _P, "old": "    return data[2:]", "new": "    return data[3:]", "expect": "C17.G1"},
+    {"name": "batch decoded from tid 1", "file": _CC, "old": "return decode_all_pdus(0, res_pdu)", "new": "return decode_all_pdus(1, res_pdu)", "expect": "C17.T1"},
+    {"name": "expected tid stepped by 2", "file": _CP, "old": "        idx += 1\n        offset", "new": "        idx += 2\n        offset", "expect": "C17.T1"},
+    {"name": "tid mismatch reported as BAD_CONTROL", "file": _CP, "old": "return (body_len, PDUStatus.TID_MISMATCH)", "new": "return (body_len, PDUStatus.BAD_CONTROL)", "expect": "C17.T1"},
+    {"name": "coap body slice one byte short", "file": _CP, "old": "data[5 : 5 + body_len]", "new": "data[5 : 4 + body_len]", "expect": "C17.T1"},
+    {"name": "batch end test uses >", "file": _CP, "old": "if offset >= len(data):", "new": "if offset > len(data):", "expect": "C17.T1"},
+    {"name": "coap status failure falls through", "file": _CP, "old": "        return (body_len, status)\n", "new": "        pass\n", "expect": "C17.T1"},
+    {"name": "ids[idx + 1]", "file": _CC, "old": "            aid_iid = ids[idx]\n            if isinstance(result, PDUStatus):\n                logger.debug(\"Failed to read",
+     "new": "            aid_iid = ids[idx + 1]\n            if isinstance(result, PDUStatus):\n                logger.debug(\"Failed to read", "expect": "C17.T2"},
+    {"name": "minus sign dropped on the status", "file": _CC, "old": "\"status\": -result.value,  # XXX", "new": "\"status\": result.value,  # XXX", "expect": "C17.T2"},
+    {"name": "results enumerated from 1", "file": _CC, "old": "        for idx, result in enumerate(pdu_results):\n            aid_iid_value = ids_values[idx]",
+     "new": "        for idx, result in enumerate(pdu_results, 1):\n            aid_iid_value = ids_values[idx]", "expect": "C17.T2"},
+    {"name": "subscribe error not recorded", "file": _CC,
+     "old": "            if isinstance(result, PDUStatus):\n                results[key] = {\n                    \"descripton\": result.description,\n                    \"status\": -result.value,  # XXX\n                }\n            else:\n                logger.debug(\n                    \"Subscribed to",
+     "new": "            if isinstance(result, PDUStatus):\n                pass\n            else:\n                logger.debug(\n                    \"Subscribed to", "expect": "C17.T2"},
+]
